@@ -9,14 +9,16 @@ therefore on a `View` of each argument (abstract graph + index labeling + neighb
 answers are reported in abstract node ids, like the harness's.
 
 `usize::MAX` ("not mapped") is `none`.  The `while let` loop takes fuel: `isoLoop` / `isomorphisms` return the
-outer `none` when the fuel is exhausted.  The wrappers do NOT report that: they call `isomorphisms` with the
-fixed fuel `bigFuel = 4000000`, and `tryMatch` maps an exhausted call to `false` (like `None` under
+outer `none` when the fuel is exhausted.  The wrappers of THIS file do not report that: they call `isomorphisms`
+with the fixed fuel `bigFuel = 4000000`, and `tryMatch` maps an exhausted call to `false` (like `None` under
 `unwrap_or(false)`), `iterLoop` maps it to "the iterator ended" (end flag `true`, exactly like a `None` from
-`next()`).  So at the level of `isoModel` / `subModel` / `iterModel` (and of the driver, which has no `FUEL`
-verdict) an exhausted call is indistinguishable from a negative answer / the end of the iteration; the answers
-are complete only when no call runs out of fuel.  That is guaranteed whenever `explicitBound I ≤ bigFuel`
-(`Proofs/C13W3Term.lean`: the loop terminates within `explicitBound I` iterations; this covers all graphs with
-at most 9 nodes, the driver runs at most 7) — see the `_bounded` / `_fuel` theorems of `Theorems/C13.lean`.
+`next()`); their answers are complete only when no call runs out of fuel.  The DRIVER therefore does not run
+them but the reporting wrappers of `Model/C13Vf2Side.lean` (`isoModelR` / `subModelR` / `iterModelR`: outer
+`none` = some `next()` call ran out of fuel, which becomes the verdict `SPECFAIL generator left the proved
+range: FUEL …`); a reported answer is the answer of these wrappers AND of the unbounded loop (fuel monotonicity),
+so the exactness theorems `C13_vf2_*_checked` of `Theorems/C13.lean` need no bound on the size of the graphs.
+The loop terminates within `explicitBound I` iterations (`Proofs/C13W3Term.lean`), so `FUEL` cannot be reported
+while `explicitBound I ≤ bigFuel` (all graphs with at most 9 nodes; the generator makes at most 7).
 -/
 namespace PetgraphModel.C13.Vf2
 open PetgraphModel
